@@ -229,6 +229,8 @@ class D(StateMachine):
         LOG.append("jump")
         return "J"
     start = Event(a.to(b), id="begin")               # an explicit Event whose own id is not the attribute name
+    def __len__(self):                                # a machine that is a (currently empty) container: falsy
+        return 0
 
 class T:
     pass
